@@ -21,7 +21,7 @@ NOT_CONSTRAINED = ['an OPEN packet whose JSON lacks fields (sid, pingInterval, .
 ASSUMPTIONS = ['cooperative scheduling only; virtual integer time']
 
 CONNECT = ('ok-polling', 'ok-websocket', 'ok-upgrade', 'upgrade-refused', 'upgrade-bad-pong', 'upgrade-no-pong', 'refuse', 'status400-json',
-           'status500', 'garbage', 'bad-packet', 'non-open', 'empty', 'ws-refuse', 'ws-non-open', 'open+close', 'hang')
+           'status500', 'garbage', 'bad-packet', 'non-open', 'empty', 'ws-refuse', 'ws-non-open', 'open+close', 'hang', 'ws-no-open')
 ENDS = ('client-disconnect', 'server-close-packet', 'silence', 'transport-drop', 'failed-post', 'poll-500', 'poll-garbage',
         'disconnect-in-message-handler', 'ws-close-frame', 'ws-eof', 'disconnect-in-connect-handler', 'disconnect-abort')
 REASON = {'client-disconnect': 'client disconnect', 'disconnect-in-message-handler': 'client disconnect', 'disconnect-abort': 'client disconnect',
@@ -37,12 +37,14 @@ def _configure(fs, conn):
     transports = None
     if conn == 'ok-polling':
         fs.upgrades = []
-    elif conn in ('ok-websocket', 'ws-refuse', 'ws-non-open'):
+    elif conn in ('ok-websocket', 'ws-refuse', 'ws-non-open', 'ws-no-open'):
         transports = ['websocket']
         if conn == 'ws-refuse':
             fs.ws_mode = 'refuse'
         elif conn == 'ws-non-open':
             fs.ws_mode = 'non-open'
+        elif conn == 'ws-no-open':
+            fs.ws_mode = 'no-open'
     elif conn == 'upgrade-refused':
         fs.ws_mode = 'refuse'
     elif conn == 'upgrade-bad-pong':
